@@ -1,3 +1,5 @@
+//go:build fg_all || fg_c13
+
 package main
 
 import (
